@@ -44,9 +44,13 @@ def _c11(spec):
     """Faults inside submitter rounds: login, nodes once they are in try-submit-jobs, user rounds."""
     kinds = set(spec.get("kinds", ("kill", "sbatch", "squeue", "lock", "write")))
     victims = spec.get("victims")  # None = all; else list of name prefixes
+    from_epoch = spec.get("from_epoch", 0)  # faults only from the k-th resubmission on
+    write_paths = spec.get("write_paths")  # EDQUOT only at these files (None = any)
 
     def p(w, v, op):
         if v.kind == "node" and _in_job_phase(v):
+            return []
+        if from_epoch and int(w.data.get("epoch", 0)) < from_epoch:
             return []
         if victims is not None and not any(v.name.startswith(x) for x in victims):
             return []
@@ -66,7 +70,8 @@ def _c11(spec):
         if op.kind == "acquire" and "lock" in kinds:
             out.append("lock-timeout")
         if op.kind == "file" and "write" in kinds and (op.detail.startswith("open-w") or op.detail.startswith("commit")):
-            out.append("edquot")
+            if write_paths is None or op.detail.split()[-1] in write_paths:
+                out.append("edquot")
         return out
 
     return p
